@@ -73,6 +73,20 @@ SUITES = {
         trace=dict(module="Trace_EVM", cfg_in="Trace_EVM.cfg.in", workers=6, timeout=5400),
         props=["C17", "C18"],
     ),
+    "evm18": dict(
+        mc=[dict(module="MC_EVM", cfg=tiered("MC_EVM.cfg", "MC_EVM_thorough.cfg"),
+                 timeout=tiered(1500, 7200), workers=tiered(6, 8))],
+        driver="evm18",
+        # arbitrary byte strings as runtime code (--bytes random, --grammar instruction sequences, --mutated from
+        # valid programs), as init code (--init; each also called afterwards), beneath STATICCALL chains (--static)
+        driver_args=lambda tier: (["--bytes", 3000, "--grammar", 1500, "--mutated", 150, "--init", 300,
+                                   "--static", 1200, "--illformed", 1, "--tiny", 200]
+                                  if tier == "quick" else
+                                  ["--bytes", 40000, "--grammar", 20000, "--mutated", 2000, "--init", 3000,
+                                   "--static", 15000, "--illformed", 1, "--tiny", 100000]),
+        trace=dict(module="Trace_EVM18", cfg_in="Trace_EVM18.cfg.in", workers=6, timeout=5400),
+        props=["C18", "C17"],
+    ),
     "verif": dict(
         mc=[dict(module="MC_VerifReg", cfg="MC_VerifReg.cfg", timeout=tiered(1800, 7200), workers=tiered(6, 14))],
         sim=dict(module="MC_VerifReg", cfg="Sim_VerifReg.cfg", num=tiered(100, 2000), depth=22),
@@ -107,16 +121,18 @@ PROPS = {
     "C12": dict(suites=["multisig"], title="Multisig: spending needs a quorum of current signers, once, within the lock"),
     "C20": dict(suites=["initd"], title="Actor identities are unique, stable and derived as specified"),
     "C17": dict(suites=["evm17"], title="EVM instructions compute what the Ethereum specification says"),
+    "C18": dict(suites=["evm18"], title="EVM execution is total, bounded and respects read-only mode"),
 }
 
 NOT_BUILT = "check not built yet in this round (work in progress; see DESIGN.md build order)"
 NOT_APPLICABLE = {p: NOT_BUILT for p in
                   ["C10", "C11",
-                   "C14", "C15", "C18", "C19"]}
+                   "C14", "C15", "C19"]}
 
 _MKT = ("Bounded exhaustive TLC model checking of spec/Market.tla with the REAL protocol constants (180-day minimum duration, 30-day cron interval; time jumps only between deal boundaries and scheduled cron epochs, so the state space is small and every behaviour is replayable 1:1): every interleaving of deposits, withdrawals, batch publication with invalid entries, both activation paths, settlement, sector termination and the per-epoch cron over <= 2 deals; formulas as invariants over state + event-derived ghosts and as action properties. Conformance: a transition tour of the model, TLC simulation behaviours and guided random schedules run on the real market actor with real miner actors as providers; every recorded step validated by TLC. ")
 _SEC = ("System-level conformance: guided random schedules of USER messages only (pre-commit, prove-commit, Window PoSt with skipped sets, fault / recovery declarations, terminations, extensions, compaction, withdrawals, block rewards, fault-plan injections) plus the per-epoch cron are run on the real miner, power, reward, cron and market actors under a scaled-down policy (4 deadlines x 6 epochs, 2 KiB sectors, partition size 2), miners created through the real power actor; after every message and tick the full projected state (every partition bitfield, memo, expiration queue, claim, cron queue, balance) is validated by TLC against the Layer-P formulas of spec/SectorsP.tla written from the protocol. ")
 LEVEL_TEXT = {
+    "C18": "spec/EVM.tla is total by construction (every byte string has exactly one outcome: stop/return, revert, or one of undefined / invalid / underflow / overflow / bad jump destination / memory beyond the 32-bit limit / memory cap / read-only violation); TLC checks totality (no deadlock), the stack bound, 'pc never inside push data', 'jump destinations = JUMPDEST bytes at instruction boundaries' and 'no storage write in a static frame' over every byte string up to a small length over reduced alphabets, in normal and static context (MC_EVM). Conformance: arbitrary byte strings (uniformly random, instruction-sequence grammar, mutated from valid generated programs) are deployed through the real EAM as runtime code, run as init code (and the contracts they create are then called), and run beneath STATICCALL at nesting depth 1-3 through CALL / DELEGATECALL / STATICCALL proxy chains with code biased towards SSTORE, TSTORE, LOG0-4, CREATE, CREATE2, SELFDESTRUCT and CALL-with-value. TLC validates every recorded interpreter step: stack depth <= 1024, memory size within the bound, every taken JUMP/JUMPI lands one past a byte that the specification's jump-destination analysis accepts; at the end of every run: no panic, no unexplained exhaustion of the step budget, the outcome class is a defined one and equals the specification's whenever the program stays inside the specified instruction set (the static frames are re-executed by the specification with static = TRUE: a state-changing instruction must end the frame); after every static call the whole state tree (code, state root and balance of every actor, the set of actors) and the event list are unchanged.",
     "C01": _SEC + "C01 formulas: TotalFilConstant, LedgerDelta (every actor's balance change equals the effective transfers of the invocation tree, failed messages change nothing), MinerSolvent, MarketSolvent (Market suite), paych Solvent (Paych suite), RewardNeverFails; also under injected failures of tolerated nested sends.",
     "C02": _SEC + "C02 formulas: PowerIsActive (claim = sum over proven, non-faulty, non-terminated sectors recomputed from partition bitfields), TotalsOK.",
     "C03": _SEC + "C03 formulas: PledgeExact, DepositsExact, VestExact, NonNegLedgers, NetPledgeTotal (literal; known finding F1 is reported when only the exact adjusted identity holds), NetPledgeNonNeg, PledgeTotalNeverBlocks.",
